@@ -4,7 +4,8 @@
 //         7 index_decoder (input = an Index field; output = the decoded Index re-encoded)  10 index_encoder (of the Index in the input)
 //         5 raw LZMA2 (flags = dict size)  6 stream_buffer_decode  7 microlzma (n/a)
 //   mode: 0 one call  1 one input byte per call  2 one output byte per call  3 random chunks + empty calls
-//         4 two pieces split at <seed>
+//         4 two pieces split at <seed>   7 everything offered with LZMA_RUN, LZMA_FINISH once nothing is left
+//   ret 94: LZMA_BUF_ERROR although unconsumed input and free output space were both available
 //  -> "<ret> <total_in> <total_out> <calls> <hexout>"
 // LZMA_FINISH is used once all input has been handed over.
 #include "lzma.h"
@@ -162,6 +163,7 @@ int main(void)
 			case 1: il = (n - ip) ? 1 : 0; ol = 1 << 16; break;   // ample for one input byte; a 24 MiB buffer per call made ASan runs 100x slower
 			case 2: il = n - ip; ol = 1; break;
 			case 4: il = (ip < seed && seed < n) ? seed - ip : n - ip; ol = 1 << 18; break;
+			case 7: il = n - ip; ol = 1 << 16; break;   // all remaining input offered with LZMA_RUN; LZMA_FINISH only once nothing is left (reader that learns about EOF late)
 			default: il = rnd() % 7 == 0 ? 0 : rnd() % 37; ol = rnd() % 7 == 0 ? 0 : rnd() % 53;
 			         if (rnd() % 11 == 0) il = n; if (rnd() % 13 == 0) ol = 70000; break;
 			}
@@ -172,6 +174,7 @@ int main(void)
 			memcpy(ib, in + ip, il);
 			s.next_in = ib; s.avail_in = il; s.next_out = ob; s.avail_out = ol;
 			lzma_action a = (ip + il == n) ? LZMA_FINISH : LZMA_RUN;
+			if (mode == 7 && il > 0) a = LZMA_RUN;
 			if (a == LZMA_FINISH) finishing = 1;
 			r = lzma_code(&s, a);
 			size_t di = il - s.avail_in, dd = ol - s.avail_out;
@@ -179,6 +182,7 @@ int main(void)
 			ip += di; op += dd; calls++;
 			if (getenv("VERIF_TRACE")) fprintf(stderr, "call %u a=%d il=%zu ol=%zu -> r=%d di=%zu dd=%zu\n", calls, (int)a, il, ol, (int)r, di, dd);
 			free(ib); free(ob);
+			if (r == LZMA_BUF_ERROR && kind <= 4 && s.avail_in > 0 && s.avail_out > 0) { r = 94; break; }   // told "cannot progress" although input and output space were both there
 			if (r == LZMA_BUF_ERROR) {
 				// not fatal: only conclusive once everything was offered
 				if (a == LZMA_FINISH && il == n - ip + di && ol > 0) break;
